@@ -24,7 +24,7 @@ GROUPS += [
     Group("life/rawlp_free", "rawlp_free.c", tus=["rawlp_mpq.c", "symtab.c", "allocrus.c", "eg_lpnum.c"], model=MODEL, mem_gb=7, defines=TOK, dfcc=False, unwind=8, kind="bounded", leak=True, namebuf=(512, 160), timeout=1200,
           bound="raw problem of 2 columns and 2 rows, every optional part present or absent, 0..2 column coefficients and 0..2 range entries; allocator chunk capacity ILL_BIGCHUNK reduced from 64 KiB to 160 bytes (3 list nodes per chunk) and ILL_namebufsize to 512 in the scratch copy (one #define line each, must-fire); loops completely unwound",
           flags=["--no-malloc-may-fail"], must_fail=["reach_end", "reach_two_range_entries"], functions=["ILLfree_rawlpdata", "ILLraw_clear_matrix", "ILLraw_add_col_coef", "ILLraw_add_ranges_coef", "ILLcolptralloc", "ILLptrworld_delete", "ILLutil_bigchunkalloc"],
-          props=["C18", "C17"], assumed=["life/rawlp_free: GMP model variant TOKENS (one heap token per initialised number)"]),
+          props=["C18", "C10", "C17"], assumed=["life/rawlp_free: GMP model variant TOKENS (one heap token per initialised number)"]),
 ]
 
 GROUPS += [
